@@ -36,3 +36,6 @@ def run(ctx):
     S.r01_4_retag(ctx, 'R13.6')
     from . import round3 as R3
     R3.r01_10_tree_untouched(ctx, 'R13.7')
+    from . import helpers_rules as H_
+    H_.r14_3_positions(ctx)
+    R3.r14_14_exact_key_match(ctx, 'R13.9')
